@@ -822,6 +822,7 @@ def dict_lookup(it, d, key):
     for f in S.dict_find_facts(keys, key, it.index_terms):
         it.assume(f)
     it.assume(z3.Length(keys) == z3.Length(Py.vals(d)))
+    it.assume(z3.Implies(j >= 0, S.json_key(d, keys[j])))
     return j
 
 
@@ -1392,10 +1393,27 @@ def _nl_values(it, v, a, k):
 NODELIST_METHODS = {"empty": _nl_empty}
 
 
+def _concrete_pattern(v):
+    t = z3.simplify(v)
+    if t.decl().name() == "pattern" and z3.is_string_value(t.arg(0)) and z3.is_int_value(t.arg(1)):
+        return S._unescape(t.arg(0).as_string()), t.arg(1).as_long()
+    return None
+
+
 def _p_fullmatch(it, v, a, k):
     s = T(it, a[0])
     if not it.branch(Py.is_str(s)):
         it.raise_(TypeError, "expected string or bytes-like object")
+    cp = _concrete_pattern(v)
+    if cp is not None:
+        from . import regex
+
+        try:
+            rx = regex.to_z3(cp[0], cp[1])
+            it.assumed.append("lib:re.fullmatch on a concrete pattern == membership in the translated regular language")
+            return z3.If(z3.InRe(Py.s(s), rx), S.mk_int(1), S.NONE)
+        except regex.NotRegular:
+            pass
     return z3.If(re_fullmatch(v, Py.s(s)), S.mk_int(1), S.NONE)  # truthy match object / None
 
 
@@ -1600,7 +1618,35 @@ def _reduce(it, a, k):
         if acc is None:
             it.raise_(TypeError, "reduce() of empty iterable with no initial value")
         return acc
-    raise Unsupported("reduce over a symbolic sequence (needs the fold rule)")
+    # fold rule (DESIGN 2.3 rule 3, lemma `fold_inv`): a fold over an arbitrary finite sequence with a
+    # step function under contract is a function of (step, sequence, initial value); two folds
+    # with contract-equivalent steps over equal sequences from equal values are equal.
+    key = None
+    f = fn.func if isinstance(fn, BoundMethod) else fn
+    if isinstance(f, FuncVal):
+        key = FOLD_IDS.get(f"{f.module.__name__}:{f.qualname}" if f.module else f.qualname)
+    if isinstance(seq, IterSpec) and seq.key[0] != "seq" and seq.term is not None:
+        seq = seq_iterspec(it, z3.simplify(S.seq_items(seq.term)))
+    if key is None or not isinstance(seq, IterSpec) or seq.key[0] != "seq" or acc is None:
+        raise Unsupported("reduce over a symbolic sequence with a step that has no fold contract")
+    fid, raises = key[0], key[1]
+    s_ = seq.key[1]
+    a_ = it.to_term(acc)
+    which = z3.Function(f"fold_exc!{fid}", S.SeqPy, Py, INT)(s_, a_)
+    it.assumed.append(f"rule:fold({fid}) - step contract proved separately")
+    it.assume(z3.And(which >= 0, which <= len(raises)))
+    it.assume(z3.Implies(z3.Length(s_) == 0, which == 0))
+    for n, cls in enumerate(raises):
+        if it.branch(which == n + 1):
+            raise PyRaise(ExcVal(cls, [S.mk_str("raised by a step of the fold")]))
+    val = z3.Function(f"fold_val!{fid}", S.SeqPy, Py, Py)(s_, a_)
+    it.assume(z3.Implies(z3.Length(s_) == 0, val == a_))
+    if len(key) > 2:
+        it.assume(key[2](a_, val))  # postcondition of the step, preserved by the fold
+    return val
+
+
+FOLD_IDS = {}
 
 
 def _json_loads(it, a, k):
@@ -1699,6 +1745,9 @@ def builtin_for(pyobj):
     return None
 
 
+_SINGLETON_REFS = {}
+
+
 def singleton_for(it, pyobj):
     """Module-level singleton instances of jsonpath classes."""
     cls = type(pyobj)
@@ -1707,7 +1756,11 @@ def singleton_for(it, pyobj):
     if cls.__module__.startswith("jsonpath") or cls is object:
         key = ("singleton", id(pyobj))
         if key not in it.singletons:
-            o = it.alloc(cls, {}, origin="QUERY")
+            # module-level singletons keep one heap reference per process, so that the two sides
+            # of a comparison (separate interpreters) denote the same object by the same term
+            ref = _SINGLETON_REFS.setdefault(id(pyobj), 100 + len(_SINGLETON_REFS))
+            o = SymObj(cls, {}, ref, "QUERY")
+            it.heap[ref] = o
             for name in getattr(cls, "__slots__", ()):
                 if hasattr(pyobj, name):
                     try:
